@@ -121,3 +121,6 @@ class Tolerancing:
 
         for compensator in self.compensator.variables:
             compensator.reset()
+
+        # pickups and solves follow the restored variables
+        self.optic.update()
